@@ -83,6 +83,7 @@ func (u *Unit) execCall(st *State, instr ssa.Instruction, common *ssa.CallCommon
 	}
 	c, callee, name := u.calleeContract(common)
 	u.assertsAtCall(st, instr, name)
+	u.lockAtCall(st, instr, callee, c)
 	// closures: free variables are bound at the MakeClosure
 	var closure *ssa.MakeClosure
 	if mc, ok := common.Value.(*ssa.MakeClosure); ok {
@@ -96,9 +97,18 @@ func (u *Unit) execCall(st *State, instr ssa.Instruction, common *ssa.CallCommon
 		if rs, ok := u.tableCall(st, instr, common, fv, args); ok {
 			return rs
 		}
+		if rs, ok := u.dynCall(st, instr, common, args); ok {
+			return rs
+		}
 	}
 	resTypes := resultTypes(sig)
 	if c == nil {
+		if callee != nil && callee.Signature.Recv() != nil && len(args) > 0 && u.eng.inRepo(calleePkg(callee)) {
+			if _, isPtr := callee.Params[0].Type().Underlying().(*types.Pointer); isPtr {
+				u.oblige(st, "safety", instr.Pos(), not(eq(args[0], intLit(0))), "nil receiver for "+shortName(name), u.safetyTags())
+				st.assume(not(eq(args[0], intLit(0))))
+			}
+		}
 		return u.havocCall(st, instr, name, callee, resTypes)
 	}
 	defer u.ghostAfterCall(st, instr, name)
@@ -223,7 +233,11 @@ func (u *Unit) applyContract(st *State, instr ssa.Instruction, c *Contract, name
 				s2.assume(s)
 			}
 		}
-		u.oblige(s2, "pre", pos, g, shortName(name)+": "+r.Text, nil)
+		kind := "pre"
+		if strings.Contains(r.Text, "excl") || strings.Contains(r.Text, "held") {
+			kind = "lock"
+		}
+		u.oblige(s2, kind, pos, g, shortName(name)+": "+r.Text, nil)
 		st.assume(g)
 	}
 	u.lockEffects(st, c, name, args, pos)
@@ -250,9 +264,21 @@ func (u *Unit) applyContract(st *State, instr ssa.Instruction, c *Contract, name
 	}
 	// modifies clauses that mention results (fresh objects returned by the callee)
 	u.havocResultFrame(st, c, bind, rs, resTypes)
+	calleeGhost := map[string]Term{}
+	for _, gv := range c.GhostVars {
+		sort := map[string]string{"int": SInt, "bool": SBool, "string": SStr, "intarray": arraySort(SInt, SInt),
+			"strarray": arraySort(SInt, SStr), "boolarray": arraySort(SInt, SBool)}[gv.Sort]
+		if sort != "" {
+			// the callee's ghost witnesses exist: fresh constants at the call site
+			calleeGhost[gv.Name] = u.fresh(st, "ghost_"+gv.Name, sort, nil)
+		}
+	}
 	for _, e := range c.Ensures {
 		ctx := &EvalCtx{u: u, st: st, old: pre, bound: map[string]bool{}}
 		bind(ctx)
+		for k, v := range calleeGhost {
+			ctx.vars[k] = v
+		}
 		for i, n := range c.Results {
 			t := rs[i]
 			t.T = resTypes[i]
@@ -442,6 +468,10 @@ func (u *Unit) callPreOnly(st *State, instr ssa.Instruction, common *ssa.CallCom
 		return
 	}
 	for _, r := range c.Requires {
+		if strings.Contains(r.Text, "held") || strings.Contains(r.Text, "excl") {
+			// the spawned goroutine has its own relation to the mutex
+			continue
+		}
 		ctx := &EvalCtx{u: u, st: st, bound: map[string]bool{}, vars: map[string]Term{}}
 		if callee != nil {
 			ctx.pkg = calleePkg(callee)
